@@ -88,7 +88,20 @@ def strategy(tier):
       'kind': st.just('sets'),
       'a': st.lists(set_keys, max_size=5), 'b': st.lists(set_keys, max_size=5),
       'ops': st.lists(st.one_of(set_op2, set_op2, set_op), max_size=10)})
-  return st.one_of(path_case, value_case, sets_case)
+  ikey = st.integers(-2, 3)
+
+  def iext(c):
+    return st.one_of(
+        st.lists(c, max_size=3),
+        st.lists(st.tuples(ikey, c), min_size=1, max_size=4, unique_by=lambda kv: kv[0]).map(
+            lambda kvs: {'$d': [list(kv) for kv in kvs]}),
+        st.lists(st.tuples(st.sampled_from(['a', 'b', 'k']), c), min_size=1, max_size=3, unique_by=lambda kv: kv[0]).map(
+            lambda kvs: {'$d': [list(kv) for kv in kvs]}))
+  intdict_case = st.fixed_dictionaries({
+      'kind': st.just('intdict'),
+      'v': st.recursive(st.one_of(st.integers(0, 5), st.sampled_from(['s', None])), iext, max_leaves=6).filter(
+          lambda x: isinstance(x, (list, dict)))})
+  return st.one_of(path_case, value_case, sets_case, value_case, intdict_case)
 
 
 def exhaustive(tier):
@@ -252,6 +265,60 @@ def _path_case(case, res):
       if y < x:
         return res.violate('sorted output out of order', law='sort-order')
   res.label('mixed-order' if mixed else 'pure-order')
+  return res
+
+
+def _listify(v):
+  """The documented normal form: a non-empty dict whose keys are exactly range(0, N) is a list."""
+  if isinstance(v, list):
+    return [_listify(x) for x in v]
+  if isinstance(v, dict):
+    out = {k: _listify(x) for k, x in v.items()}
+    if out and all(isinstance(k, int) and not isinstance(k, bool) for k in out) and sorted(out) == list(range(len(out))):
+      return [out[k] for k in sorted(out)]
+    return out
+  return v
+
+
+def _intdict_case(case, res):
+  """flatten / canonicalize on dicts with int keys: only a perfect range(0, N) may become a list."""
+  v = _build(case.get('v'), True)
+  if not isinstance(v, (list, dict)):
+    raise core.InvalidCase(case)
+
+  def uniform(x):
+    if isinstance(x, dict):
+      kinds = {isinstance(k, int) for k in x}
+      return len(kinds) <= 1 and all(uniform(y) for y in x.values())
+    if isinstance(x, list):
+      return all(uniform(y) for y in x)
+    return True
+  if not uniform(v):
+    raise core.InvalidCase(case)
+  has_sparse = []
+
+  def scan(x):
+    if isinstance(x, dict):
+      if x and all(isinstance(k, int) for k in x) and sorted(x) != list(range(len(x))):
+        has_sparse.append(1)
+      for y in x.values():
+        scan(y)
+    elif isinstance(x, list):
+      for y in x:
+        scan(y)
+  scan(v)
+  if has_sparse:
+    res.nontrivial = True
+    res.label('sparse-int-dict')
+  flat = pg.utils.flatten(v, flatten_complex_keys=False)
+  try:
+    back = pg.utils.canonicalize(flat)
+  except Exception as e:   # pylint: disable=broad-except
+    return res.violate('canonicalize(flatten(%r)) raised %r; flat=%r' % (v, e, flat), law='flatten-inverse', how='raises', keys='int')
+  want = _listify(v)
+  if not _deep_same(back, want):
+    return res.violate('canonicalize(flatten(v)) = %r for v = %r (expected %r); flat=%r' % (back, v, want, flat),
+                       law='flatten-inverse', how='differs', keys='int')
   return res
 
 
@@ -491,6 +558,8 @@ def execute(case):
     return _path_case(case, res)
   if kind == 'value':
     return _value_case(case, res)
+  if kind == 'intdict':
+    return _intdict_case(case, res)
   if kind == 'sets':
     # The reserved trie marker '$' used as a *key* is a recorded finding; every
     # violation of a case that contains such a key carries dollar_key=True.
